@@ -8,6 +8,7 @@ import (
 	"time"
 
 	"github.com/rulego/streamsql"
+	"github.com/rulego/streamsql/stream"
 )
 
 // PairScenario runs two instances alone and then interleaved in one process (C20b).
@@ -17,6 +18,8 @@ type PairScenario struct {
 	A       SeqScenario    `json:"a"`
 	B       SeqScenario    `json:"b"`
 	Pattern string         `json:"pattern"` // e.g. "abab": whose next row is fed at each step (rest appended)
+	Share   bool           `json:"share"`   // B registers the table-source handles that A's RegisterTable returned (one table object, two instances)
+	StopA   int            `json:"stop_a"`  // > 0: A is stopped after that many of its rows; B goes on and is the only one judged
 }
 
 // runCollect feeds rows in lock-step to a fresh instance and returns the sequence of delivered batches (abstract JSON).
@@ -25,14 +28,35 @@ type pairInst struct {
 	in   *Inst
 	outs *[]string
 	n    int64
+	srcs map[string]*stream.MemoryTableSource
 }
 
-func newPairInst(sc SeqScenario) (*pairInst, string) {
+func newPairInst(sc SeqScenario, shared map[string]*stream.MemoryTableSource) (*pairInst, string) {
 	in := NewInst()
 	s := newInstance(streamsql.WithDiscardLog())
 	if err := s.Execute(sc.SQL); err != nil {
 		in.Close()
 		return nil, "execute: " + err.Error()
+	}
+	srcs := map[string]*stream.MemoryTableSource{}
+	for _, t := range sc.Tables {
+		if src := shared[t.Name]; src != nil {
+			if err := s.RegisterTableSource(src); err != nil {
+				in.Close()
+				return nil, "register shared table: " + err.Error()
+			}
+			continue
+		}
+		rows := make([]map[string]any, len(t.Rows))
+		for k, r := range t.Rows {
+			rows[k] = decodeRow(r)
+		}
+		src, err := s.RegisterTable(t.Name, rows, t.Keys...)
+		if err != nil {
+			in.Close()
+			return nil, "register table: " + err.Error()
+		}
+		srcs[t.Name] = src
 	}
 	st := s.Stream()
 	var wany any
@@ -41,7 +65,7 @@ func newPairInst(sc SeqScenario) (*pairInst, string) {
 	}
 	in.Bind(st, wany, FieldPtr(wany, "watermark"))
 	outs := []string{}
-	p := &pairInst{s: s, in: in, outs: &outs}
+	p := &pairInst{s: s, in: in, outs: &outs, srcs: srcs}
 	s.AddSyncSink(func(rs []map[string]any) {
 		rows := make([]any, 0, len(rs))
 		for _, r := range rs {
@@ -87,7 +111,7 @@ func (p *pairInst) close() []string {
 }
 
 func runAlone(sc SeqScenario) ([]string, string) {
-	p, e := newPairInst(sc)
+	p, e := newPairInst(sc, nil)
 	if e != "" {
 		return nil, e
 	}
@@ -161,18 +185,31 @@ func RunPair(sc PairScenario) ([]Ev, string) {
 	if e != "" {
 		return nil, "B alone: " + e
 	}
-	pa, e := newPairInst(sc.A)
+	pa, e := newPairInst(sc.A, nil)
 	if e != "" {
 		return nil, e
 	}
-	pb, e := newPairInst(sc.B)
+	var shared map[string]*stream.MemoryTableSource
+	if sc.Share {
+		shared = pa.srcs
+	}
+	pb, e := newPairInst(sc.B, shared)
 	if e != "" {
 		pa.close()
 		return nil, e
 	}
 	ia, ib := 0, 0
+	aStopped := false
 	step := func(which byte) bool {
 		if which == 'a' && ia < len(sc.A.Rows) {
+			if sc.StopA > 0 && ia >= sc.StopA {
+				if !aStopped {
+					aStopped = true
+					pa.s.Stop() // the other instance goes on; a table it shares with A stays what it is
+				}
+				ia++
+				return true
+			}
 			ia++
 			return pa.feed(sc.A.Rows[ia-1])
 		}
@@ -205,7 +242,9 @@ func RunPair(sc PairScenario) ([]Ev, string) {
 		}
 		return out
 	}
-	evs = append(evs, Ev{"tr": sc.Tr, "e": "cmp", "inst": "a", "same": b2i(equalStrs(aAlone, aPair)), "alone": dec(aAlone), "paired": dec(aPair)})
+	if sc.StopA == 0 {
+		evs = append(evs, Ev{"tr": sc.Tr, "e": "cmp", "inst": "a", "same": b2i(equalStrs(aAlone, aPair)), "alone": dec(aAlone), "paired": dec(aPair)})
+	}
 	evs = append(evs, Ev{"tr": sc.Tr, "e": "cmp", "inst": "b", "same": b2i(equalStrs(bAlone, bPair)), "alone": dec(bAlone), "paired": dec(bPair)})
 	evs = append(evs, Ev{"tr": sc.Tr, "e": "quiesce"})
 	return evs, ""
